@@ -68,6 +68,9 @@ func (o UnmarshalOptions) unmarshalMessageSet(b []byte, m protoreflect.Message) 
 	return messageset.Unmarshal(b, false, func(num protowire.Number, v []byte) error {
 		err := o.unmarshalMessageSetField(m, num, v)
 		if err == errUnknown {
+			if o.DiscardUnknown {
+				return nil
+			}
 			unknown := m.GetUnknown()
 			unknown = protowire.AppendTag(unknown, num, protowire.BytesType)
 			unknown = protowire.AppendBytes(unknown, v)
